@@ -94,7 +94,9 @@ def handle(ctx, job, res, origin):
     fails, premise = predicate(job, res)
     ctx.count('premise_%s' % ('holds' if premise else 'fails_for_some_file'))
     if fails:
-        ctx.fail(job, {'failures': fails[:6]})
+        # decoder refusals recorded during the run (exception type + the received block), for the known-finding classifier
+        refusals = [[c[5], c[2], c[3]] for e in res.get('files', []) for c in e['calls'] if c[0] == 'D' and c[4] is None]
+        ctx.fail(job, {'failures': fails[:6], 'decoder_refusals': refusals[:10]})
     wc = res['within_capacity']
     repaired = sum(1 for p, i, c in res['log_events'] if c in (1, 2, 3))
     ctx.count('blocks_repaired', repaired)
@@ -193,7 +195,8 @@ def replay_case(ctx, case):
     n0 = len(ctx.disagreements)
     pipe.correspondence(ctx, case, res, case)
     dis = [d['what'] for d in ctx.disagreements[n0:]]
-    return {'holds': not fails, 'premise_holds_for_all_files': premise, 'property_failures': fails[:6],
+    return {'holds': not fails, 'premise_holds_for_all_files': premise, 'property_failures': fails[:6], 'failures': fails[:6],
+            'decoder_refusals': [[c[5], c[2], c[3]] for e in res.get('files', []) for c in e['calls'] if c[0] == 'D' and c[4] is None][:10],
             'implementation': {'exit': res['corr'], 'stats': res['stats'], 'outputs': {k: len(v) // 2 for k, v in res['outputs'].items()},
                                'within_capacity': res['within_capacity'],
                                'unrepairable': [[p, i] for p, i, c in res['log_events'] if c == 4][:20]},
@@ -228,4 +231,20 @@ def shrink(ctx, case):
 
 
 def classify(case, detail):
+    """open finding C02-codec12-mixed-errata-incomplete seen through the tools (recorded under C01 as
+    C01-codec12-mixed-errata-incomplete): codec 1 or 2, erasure handling on (not --only_erasures), and the blocks that were
+    not repaired are blocks on which the third-party decoder raised RSCodecError although the received block carries
+    erasure symbols (mixed errors-and-erasures; errors-only and erasures-only words decode)."""
+    try:
+        er = case.get('erasures')
+        if case.get('algo') not in (1, 2) or not er or er.get('only') or not isinstance(detail, dict):
+            return None
+        ref = detail.get('decoder_refusals') or []
+        if not ref or any(r[0] != 'RSCodecError' for r in ref):
+            return None
+        sym = '%02x' % er['sym']
+        if all(sym in [r[1][i:i + 2] for i in range(0, len(r[1]), 2)] + [r[2][i:i + 2] for i in range(0, len(r[2]), 2)] for r in ref):
+            return 'C01-codec12-mixed-errata-incomplete'
+    except Exception:
+        return None
     return None
